@@ -8,6 +8,7 @@ import (
 	"os"
 	"os/exec"
 	"path/filepath"
+	"runtime"
 	"strings"
 	"sync"
 
@@ -28,11 +29,15 @@ type scriptReader struct {
 	script [][2]int // {chunk length, err kind}
 	pos    int
 	log    []ev14
+	yield  bool // block like a real file read would: lets another goroutine run on this P
 }
 
 var errBoom = errors.New("injected read failure")
 
 func (r *scriptReader) Read(p []byte) (int, error) {
+	if r.yield {
+		runtime.Gosched()
+	}
 	if len(r.script) == 0 {
 		// script exhausted: plain reader behaviour
 		n := copy(p, r.data[r.pos:])
@@ -248,6 +253,9 @@ func runC14(o *opts) {
 	for g := range seeds {
 		seeds[g] = r.fork()
 	}
+	// more goroutines than processors, and readers that block between chunks: goroutines take
+	// turns on one P, which is when they can be handed the same pooled buffer or hasher
+	defer runtime.GOMAXPROCS(runtime.GOMAXPROCS(2))
 	for g := 0; g < 16; g++ {
 		wg.Add(1)
 		go func(g int) {
@@ -255,11 +263,11 @@ func runC14(o *opts) {
 			rr := seeds[g]
 			for k := g; k < nconc; k += 16 {
 				n := rr.intn(400)
-				if rr.chance(1, 8) {
-					n = 1020 + rr.intn(10)
+				if rr.chance(1, 4) {
+					n = 1020 + rr.intn(3000)
 				}
 				data := rr.bytes(n)
-				rd := &scriptReader{data: data, script: mkScript(rr, n, []int{0, 1, 3}[rr.intn(3)])}
+				rd := &scriptReader{data: data, script: mkScript(rr, n, []int{0, 1, 3}[rr.intn(3)]), yield: true}
 				res, err := checksum.Checksum(rd)
 				out[k] = cres{data, rd.log, res, err}
 			}
